@@ -440,22 +440,25 @@ End RelAccum.
 
 Lemma failure_propagates P F tol rel y0 y :
   pf_sim_ok P = true -> pf_worker_ok P = true ->
-  ss_run F tol rel y0 y = SSNoSteady ->
-  (exists s, sim_to_steady sim_fresh (ss_run F tol rel y0 y) = Some s
-             /\ get_result s = RError ENoSteadyState)
-  /\ steady_state_row P F tol rel y0 y = Some RowNaN.
+  (ss_run F tol rel y0 y = SSNoSteady ->
+     exists s, sim_to_steady sim_fresh (ss_run F tol rel y0 y) = Some s
+               /\ get_result s = RError ENoSteadyState)
+  /\ (ss_run F (pf_default_tol P) rel y0 y = SSNoSteady -> steady_state_row P F rel y0 y = Some RowNaN).
 Proof.
-  intros H1 H2 E. unfold steady_state_row. rewrite H1, H2, E. cbn. split; [|reflexivity].
-  eexists. split; reflexivity.
+  intros H1 H2. split; intros E.
+  - rewrite E. cbn. eexists. split; reflexivity.
+  - unfold steady_state_row. rewrite H1, H2, E. reflexivity.
 Qed.
 
-Lemma success_propagates P F tol rel y0 y t v :
+Lemma success_propagates P F tol rel y0 y :
   pf_sim_ok P = true -> pf_worker_ok P = true ->
-  ss_run F tol rel y0 y = SSSteady t v ->
-  (exists s, sim_to_steady sim_fresh (ss_run F tol rel y0 y) = Some s
-             /\ get_result s = RSimulation [(t, v)])
-  /\ steady_state_row P F tol rel y0 y = Some (RowValues v).
+  (forall t v, ss_run F tol rel y0 y = SSSteady t v ->
+     exists s, sim_to_steady sim_fresh (ss_run F tol rel y0 y) = Some s
+               /\ get_result s = RSimulation [(t, v)])
+  /\ (forall t v, ss_run F (pf_default_tol P) rel y0 y = SSSteady t v ->
+        steady_state_row P F rel y0 y = Some (RowValues v)).
 Proof.
-  intros H1 H2 E. unfold steady_state_row. rewrite H1, H2, E. cbn. split; [|reflexivity].
-  eexists. split; reflexivity.
+  intros H1 H2. split; intros t v E.
+  - rewrite E. cbn. eexists. split; reflexivity.
+  - unfold steady_state_row. rewrite H1, H2, E. reflexivity.
 Qed.
